@@ -19,6 +19,8 @@ use vh::ensure;
 use vh::envx;
 use vh::report::Tier;
 
+#[path = "../shared/timelock_wrap.rs"]
+mod tlw;
 #[path = "/repo/examples/timelock-controller/src/contract.rs"]
 mod tlc;
 use tlc::OperationMeta;
@@ -38,10 +40,13 @@ enum Call {
     /// grant_role(E, "executor"): turns an open-execution controller into one with executors
     /// (seed 2 only; never part of the explored alphabet)
     GrantExecutorE,
+    /// transfer_admin_role(X, 0): withdraws a pending admin transfer to X — admin-only like the offer
+    CancelTransferX,
 }
 
-const QUICK_CALLS: [Call; 5] = [Call::Delay0, Call::Delay5, Call::GrantProposerX, Call::Renounce, Call::Delay7AfterDelay5];
-const ALL_CALLS: [Call; 8] = [
+const QUICK_CALLS: [Call; 7] = [Call::Delay0, Call::Delay5, Call::GrantProposerX, Call::Renounce, Call::Delay7AfterDelay5, Call::TransferAdminX, Call::CancelTransferX];
+const ALL_CALLS: [Call; 9] = [
+    Call::CancelTransferX,
     Call::Delay0,
     Call::Delay5,
     Call::GrantProposerX,
@@ -100,6 +105,10 @@ enum Op {
     /// grant_role / revoke_role called directly by an ordinary account naming itself as caller and
     /// signing for itself (no timelocked operation involved)
     DirectRole { grant: bool, role: Role, caller: Who },
+    /// a DIRECT call (not through execute_op) of a contract governed by the controller, carrying an
+    /// authorization entry for the controller's address with `n` descriptors naming executor `ex`:
+    /// nothing was scheduled for it, so no payload may let it through
+    ForeignDirect { n: usize, ex: Option<Who>, executor_signs: bool },
     /// probe on a rebuilt copy: 2000000 ledgers pass without a call (role entries are extended by 90
     /// days = 1555200 ledgers); roles, admin, minimum delay and the stored state of every operation
     /// (Done stays Done, scheduled stays scheduled with the same ready ledger) must read the same
@@ -151,6 +160,8 @@ struct Inst {
     p: Address,
     ex: Address,
     x: Address,
+    /// a contract governed by the controller (demands the controller's authorization)
+    gov: Address,
     ids: std::collections::BTreeMap<OpId, BytesN<32>>,
 }
 
@@ -181,6 +192,7 @@ impl Inst {
             Call::Renounce => ("renounce_admin", SVec::new(e)),
             Call::SetRoleAdmin => ("set_role_admin", (Symbol::new(e, "proposer"), Symbol::new(e, "executor")).into_val(e)),
             Call::TransferAdminX => ("transfer_admin_role", (self.x.clone(), 5000u32).into_val(e)),
+            Call::CancelTransferX => ("transfer_admin_role", (self.x.clone(), 0u32).into_val(e)),
         }
     }
     fn pred_of(&self, op: OpId) -> BytesN<32> {
@@ -241,6 +253,24 @@ impl Tlc {
                 true
             }
             Op::IdleProbe => false,
+            Op::ForeignDirect { n, ex, executor_signs } => {
+                let args: SVec<Val> = (1u32,).into_val(e);
+                let inv = auth::invocation(e, &i.gov, "poke", &args);
+                let mut l: SVec<OperationMeta> = SVec::new(e);
+                for _ in 0..*n {
+                    l.push_back(OperationMeta { predecessor: zero(e), salt: salt(e, 1), executor: ex.map(|w| i.who(w)) });
+                }
+                let v: Val = l.into_val(e);
+                let sc = ScVal::try_from_val(e, &v).expect("sig scval");
+                let mut entries = vec![auth::entry_with_sig(e, &auth::sc(&i.c), &inv, sc)];
+                if let (true, Some(w)) = (*executor_signs, ex) {
+                    // what __check_auth would ask of an executor for such a descriptor
+                    let a: SVec<Val> = (Symbol::new(e, "execute_op"), i.gov.clone(), Symbol::new(e, "poke"), args.clone(), zero(e), salt(e, 1)).into_val(e);
+                    let _ = a;
+                    entries.push(auth::entry(e, &auth::sc(&i.who(*w)), &auth::invocation(e, &i.c, "__check_auth", &SVec::new(e))));
+                }
+                call_entries(e, &i.gov, "poke", args, &entries).is_ok()
+            }
             Op::DirectRole { grant, role, caller } => {
                 // grant: to the stranger X; revoke: from the proposer P
                 let (f, account) = if *grant { ("grant_role", i.x.clone()) } else { ("revoke_role", i.p.clone()) };
@@ -415,7 +445,8 @@ impl World for Tlc {
             executors.push_back(ex.clone());
         }
         let c = e.register(tlc::TimelockController, (2u32, proposers, executors, None::<Address>));
-        let mut i = Inst { e, c, p, ex, x, ids: Default::default() };
+        let gov = e.register(tlw::Governed, (c.clone(),));
+        let mut i = Inst { e, c, p, ex, x, gov, ids: Default::default() };
         // ids through the contract's own hash_operation; Delay5 first (Delay7's predecessor)
         let mut order = self.op_ids();
         order.sort_by_key(|o| (o.call == Call::Delay7AfterDelay5, *o));
@@ -460,6 +491,10 @@ impl World for Tlc {
             if m.min_delay > 0 {
                 delays.insert(0, m.min_delay - 1);
             }
+            if !th && matches!(op.call, Call::TransferAdminX | Call::CancelTransferX | Call::GrantExecutorE) {
+                // quick: these are scheduled with the minimum delay only (the delay clause is decided on the other calls)
+                delays = vec![m.min_delay];
+            }
             if op.salt == 1 && !op.foreign && op.call == Call::Delay0 {
                 // a delay whose ready ledger lies beyond u32::MAX (must saturate, never wrap into the past)
                 delays.push(u32::MAX);
@@ -479,6 +514,10 @@ impl World for Tlc {
         v.push(Op::Advance(1));
         v.push(Op::Advance(2));
         v.push(Op::IdleProbe);
+        for n in [0usize, 1, 2] {
+            v.push(Op::ForeignDirect { n, ex: None, executor_signs: false });
+        }
+        v.push(Op::ForeignDirect { n: 1, ex: Some(Who::E), executor_signs: true });
         for grant in [true, false] {
             for role in if th { vec![Role::Proposer, Role::Canceller, Role::Executor] } else { vec![Role::Proposer, Role::Canceller] } {
                 for caller in if self.with_executor { vec![Who::P, Who::X, Who::E] } else { vec![Who::P, Who::X] } {
@@ -493,7 +532,10 @@ impl World for Tlc {
             for ex in &fields {
                 let good = Meta { salt: 1, right_pred: true, executor: *ex };
                 sigs.push(Sig::List(vec![good]));
-                if ex.is_none() || *ex == Some(Who::E) || th {
+                // the two admin-transfer calls get the short payload family in quick (the long family is
+                // exercised on the other calls; what matters here is that the entry points are gated at all)
+                let short = !th && matches!(call, Call::TransferAdminX | Call::CancelTransferX);
+                if (ex.is_none() || *ex == Some(Who::E) || th) && !short {
                     sigs.push(Sig::List(vec![Meta { salt: 2, ..good }]));
                     sigs.push(Sig::List(vec![Meta { right_pred: false, ..good }]));
                     sigs.push(Sig::List(vec![good, good]));
@@ -502,7 +544,9 @@ impl World for Tlc {
                 }
             }
             let extra = if *call == Call::Delay5 { Call::Delay0 } else { Call::Delay5 };
-            sigs.push(Sig::TwoContextsEmpty { extra });
+            if th || !matches!(call, Call::TransferAdminX | Call::CancelTransferX) {
+                sigs.push(Sig::TwoContextsEmpty { extra });
+            }
             for sig in sigs {
                 for es in &exec_choices {
                     // the executor's entry only makes sense when a descriptor names somebody
@@ -528,6 +572,7 @@ impl World for Tlc {
             Op::ScheduleUnsigned { .. } | Op::CancelUnsigned { .. } => "schedule/cancel-without-authorization".into(),
             Op::Advance(_) => "advance".into(),
             Op::IdleProbe => "idle-probe".into(),
+            Op::ForeignDirect { .. } => "direct-call-of-a-governed-contract".into(),
             Op::DirectRole { .. } => "direct-role-management".into(),
             Op::Admin { sig, .. } => match sig {
                 Sig::NoEntry => "admin-call(no-entry)".into(),
@@ -586,6 +631,12 @@ impl World for Tlc {
         match op {
             Op::Advance(_) => {}
             Op::IdleProbe => unreachable!(),
+            Op::ForeignDirect { .. } => {
+                return Err(Violation::new(
+                    "admin-call-without-ready-operation",
+                    format!("{:?} went through: the controller's authorization was accepted for a call of another contract for which no operation was ever scheduled", op),
+                ));
+            }
             Op::Schedule { op: o, delay, by } => {
                 ensure!(pre.proposers.contains(by), "schedule-role", "{:?} scheduled without the proposer role", by);
                 ensure!(*delay >= pre.min_delay, "schedule-delay", "scheduled with delay {} < minimum {}", delay, pre.min_delay);
@@ -690,7 +741,7 @@ impl World for Tlc {
                     Call::RevokeCancellerP => x.cancellers.retain(|w| *w != Who::P),
                     Call::Renounce => x.admin_is_self = false,
                     Call::SetRoleAdmin => x.proposer_role_admin = true,
-                    Call::TransferAdminX => {}
+                    Call::TransferAdminX | Call::CancelTransferX => {}
                 }
             }
         }
